@@ -305,6 +305,9 @@ class Resolver:
             base, idx = self.term(e.value, node), self.term(e.slice, node)
             if idx == ("index", base):
                 return ("elem", base)  # X[i] inside `for i in range(len(X))` / enumerate(X): the current element
+            if idx == ("elem", base) and base[0] == "call":
+                # D[k] inside `for k in D` (D a mapping returned by a call): the current value, as in `for v in D.values()`
+                return ("elem", ("call", ("attr", base, "values"), (), ()))
             return ("sub", base, idx)
         if isinstance(e, ast.Slice):
             f = lambda x: self.term(x, node) if x is not None else ("const", None)  # noqa: E731
